@@ -110,7 +110,7 @@ func failureProblems(res *run.Result, exp *ref.Result, f *ref.Task, failProc str
 func c09(args []string) {
 	c := chk.New("C09", "fault_enumeration", args)
 	c.Build(false)
-	c.Rule("generated graphs x every chosen task as the failing one x failure kind {exit non-zero before/mid/after writing, killed by SIGKILL / SIGSEGV, the task's shell killed by SIGKILL / SIGTERM after writing, declared output not produced, output written under another name; Go-function variants; task cannot be formed: empty parameter value, missing tag, invalid output path (space, colon, empty, letters / digits outside ASCII)} while sibling tasks are running; oracle = exit status != 0, no completion report, no final path of the failing task exists, no start event of any transitive dependant; plus output paths that cannot be finalized: an absolute output area on another file system (symlink to /dev/shm), where the commands succeed but the rename out of the temp directory fails - the program must exit non-zero, must not report completion, and no downstream task may run; twelve tasks failing at the same moment with long error reports (each of them is judged); Go-function tasks also fail by panicking, also those that write through task.OutIP(port).Write() to a port declared through SetOut only; a command line that is a list whose middle element fails after the outputs were written; a producer with only streamed outputs failing 0.5 s after it closed its streams. distinct_nontrivial = distinct (graph shape, failing task, failure kind) in which the failing command really ran (or, for unformable tasks, the workflow was started) and >= 1 sibling task executed")
+	c.Rule("generated graphs x every chosen task as the failing one x failure kind {exit non-zero before/mid/after writing, killed by SIGKILL / SIGSEGV, the task's shell killed by SIGKILL / SIGTERM after writing, declared output not produced, output written under another name; Go-function variants; task cannot be formed: empty parameter value, missing tag, invalid output path (space, colon, empty, letters / digits outside ASCII)} while sibling tasks are running; oracle = exit status != 0, no completion report, no final path of the failing task exists, no start event of any transitive dependant; plus output paths that cannot be finalized: an absolute output area on another file system (symlink to /dev/shm), where the commands succeed but the rename out of the temp directory fails - the program must exit non-zero, must not report completion, and no downstream task may run; twelve tasks failing at the same moment with long error reports (each of them is judged); Go-function tasks also fail by panicking, also those that write through task.OutIP(port).Write() to a port declared through SetOut only; a command line that is a list whose middle element fails after the outputs were written, or a multi-line script whose last line returns non-zero; a producer with only streamed outputs failing 0.5 s after it closed its streams. distinct_nontrivial = distinct (graph shape, failing task, failure kind) in which the failing command really ran (or, for unformable tasks, the workflow was started) and >= 1 sibling task executed")
 	c.Assume("siblings that were already running may finalize their own outputs (os.Exit does not wait) - legal", "orphaned sibling commands are killed by the runner after the workflow process has exited")
 	rng := c.Rand("c09")
 	type job struct {
@@ -124,6 +124,7 @@ func c09(args []string) {
 		idx  int    // index of the unformable task of fp, -1 = all of them
 	}
 	var jobs []*job
+	nList := 0
 	ngraphs := c.Pick(14, 120)
 	perGraph := c.Pick(12, 16)
 	for g := 0; g < ngraphs; g++ {
@@ -157,6 +158,11 @@ func c09(args []string) {
 			if p.Kind == spec.KCmd && len(exp.ByProc[p.Name]) > 0 && len(exp.ByProc[p.Name][0].Outs) > 0 && (g+len(p.Name))%2 == 0 {
 				s2 := s.Clone()
 				s2.Proc(p.Name).Cmd += " && false && echo not-reached"
+				nList++
+				if nList%2 == 0 && !strings.Contains(p.Cmd, " -- ") {
+					// a multi-line script whose last line returns non-zero after the outputs were written
+					s2.Proc(p.Name).Cmd = p.Cmd + "\necho checking\ntest -e /nonexistent/marker"
+				}
 				jobs = append(jobs, &job{s: s2, exp: exp, mode: "list-element-fails", cfg: Cfg{Buf: b, Procs: []int{1, 2, 4}[rng.Intn(3)], Sched: fmt.Sprintf("%d,300,600", rng.Intn(1<<30))}, fp: p.Name, idx: -1})
 				break
 			}
